@@ -182,8 +182,45 @@ func v10Request(queued chan func(), results chan error, runDone <-chan struct{})
 // runAbaco: the real AbacoSource (Sample/StartRun/readerMainLoop/getNextBlock worker/distributeData) under
 // Start, a queued request and Stop.
 func (sc v10Scenario) runAbaco(x *vexp.X) vexp.Result {
+	if sc.lancero {
+		return sc.runLancero(x)
+	}
 	src, clock := v17NewAbaco()
 	defer src.stopTickers()
+	return sc.runHW(x, src, src.done, &src.AnySource, clock)
+}
+
+// runLancero: the real LanceroSource (StartRun/launchLanceroReader/getNextBlock worker/distributeData) with the
+// scripted card of C04.
+func (sc v10Scenario) runLancero(x *vexp.X) vexp.Result {
+	src, _ := v17NewLancero()
+	v17Ticks = make(chan time.Time)
+	defer func() {
+		if src.numberWrittenTicker != nil {
+			src.numberWrittenTicker.Stop()
+			src.writingState.externalTriggerTicker.Stop()
+			src.writingState.dataDropTicker.Stop()
+		}
+	}()
+	clock := func(started chan struct{}) func() {
+		return func() {
+			<-started
+			for i := 0; i < 6; i++ {
+				vhook.PSC(921, []interface{}{v17Ticks, src.abortSelf}, []bool{true, false}, false)
+				select {
+				case v17Ticks <- time.Time{}:
+					vhook.C(0)
+				case <-src.abortSelf:
+					vhook.C(1)
+					return
+				}
+			}
+		}
+	}
+	return sc.runHW(x, src, src.done, &src.AnySource, clock)
+}
+
+func (sc v10Scenario) runHW(x *vexp.X, src DataSource, done chan struct{}, any *AnySource, clock func(chan struct{}) func()) vexp.Result {
 	queued := make(chan func())
 	results := make(chan error)
 	started := make(chan struct{})
@@ -203,7 +240,7 @@ func (sc v10Scenario) runAbaco(x *vexp.X) vexp.Result {
 			}
 			close(started)
 			if sc.nblocks > 0 {
-				<-src.done // at least one block has been processed
+				<-done // at least one block has been processed
 			}
 			stopErr = src.Stop()
 		},
@@ -214,7 +251,7 @@ func (sc v10Scenario) runAbaco(x *vexp.X) vexp.Result {
 		names = append(names, fmt.Sprintf("requester%d", i+1))
 		drivers = append(drivers, func() {
 			<-started
-			reqOut = v10Request(queued, results, src.RunDoneChan())
+			reqOut = v10Request(queued, results, any.RunDoneChan())
 		})
 	}
 	s := vhook.Run(x, vhook.Options{MaxSteps: 1500, Names: names, DelayBound: sc.delay}, drivers...)
@@ -237,7 +274,7 @@ func (sc v10Scenario) runAbaco(x *vexp.X) vexp.Result {
 		if stopErr != nil {
 			fail("stop-error", "Stop returned %v", stopErr)
 		}
-		if st := src.AnySource.sourceState; st != Inactive {
+		if st := any.sourceState; st != Inactive {
 			fail("not-inactive", "all calls have returned but the source state is %v, not Inactive", st)
 		}
 	}
@@ -265,6 +302,7 @@ type v10Scenario struct {
 	history  bool // S5: one thread, Start/Stop/Start histories
 	nreq     int  // S6/S7: threads that hand a request to the core loop (as runLaterIfActive does)
 	abaco    bool // S6: the real AbacoSource with a scripted packet producer
+	lancero  bool // S6: the real LanceroSource with the scripted card (implies abaco = hardware-source driver)
 	delay    bool // bound all deviations from the canonical schedule (delay bounding) instead of preemptions only
 }
 
@@ -487,7 +525,7 @@ func TestVerifC10(t *testing.T) {
 	if r.Thorough() {
 		pbCore, pbWide, pbDelay = 3, 2, 5
 	}
-	r.SetBound(fmt.Sprintf("all interleavings (all select alternatives) with at most %d preemptions for the core scenarios (Start + 2 concurrent Stop callers against the real CoreLoop and a scripted producer that runs normally / sends an error block / closes its channel) and at most %d for the wider ones (Start || Start, 1-2 blocks before the event, 3 Stop callers, writing active, a request handed to the core loop while Stop is called, Start/Stop/Start histories incl. a first Start failing in Sample, PrepareRun or StartRun), each followed by a restart of the same source object; and the real AbacoSource (scripted packet producer, clock thread) under Start, a queued request and Stop; the request and Abaco scenarios are delay-bounded: at most %d deviations of any kind (thread choice or select alternative) from the canonical schedule", pbCore, pbWide, pbDelay))
+	r.SetBound(fmt.Sprintf("all interleavings (all select alternatives) with at most %d preemptions for the core scenarios (Start + 2 concurrent Stop callers against the real CoreLoop and a scripted producer that runs normally / sends an error block / closes its channel) and at most %d for the wider ones (Start || Start, 1-2 blocks before the event, 3 Stop callers, writing active, a request handed to the core loop while Stop is called, Start/Stop/Start histories incl. a first Start failing in Sample, PrepareRun or StartRun), each followed by a restart of the same source object; and the real AbacoSource (scripted packet producer, clock thread) and LanceroSource (scripted card, clock thread) under Start, a queued request and Stop; the request and Abaco scenarios are delay-bounded: at most %d deviations of any kind (thread choice or select alternative) from the canonical schedule", pbCore, pbWide, pbDelay))
 	dir := filepath.Join(os.Getenv("TMPDIR"), "c10")
 	os.MkdirAll(dir, 0755)
 	var scs []v10Scenario
@@ -515,6 +553,8 @@ func TestVerifC10(t *testing.T) {
 	scs = append(scs, v10Scenario{name: "S6-abaco/request/stop-after-block", abaco: true, nblocks: 1, nreq: 1, delay: true})
 	scs = append(scs, v10Scenario{name: "S6-abaco/request/stop-at-once", abaco: true, nblocks: 0, nreq: 1, delay: true})
 	scs = append(scs, v10Scenario{name: "S6-abaco/no-request", abaco: true, nblocks: 1, nreq: 0, delay: true})
+	scs = append(scs, v10Scenario{name: "S6-lancero/request/stop-after-block", abaco: true, lancero: true, nblocks: 1, nreq: 1, delay: true})
+	scs = append(scs, v10Scenario{name: "S6-lancero/request/stop-at-once", abaco: true, lancero: true, nblocks: 0, nreq: 1, delay: true})
 	if r.Thorough() {
 		scs = append(scs, v10Scenario{name: "S6-abaco/two-requests", abaco: true, nblocks: 1, nreq: 2, delay: true})
 	}
